@@ -17,7 +17,7 @@ func newFuncVC(eng *Engine, fn *ssa.Function, con *Contract, universe map[string
 		heapSorts: map[string]string{}, universe: universe, typeTags: map[string]int{}, globals: map[*ssa.Global]*Val{},
 		paramEntry: map[string]*Val{}, loops: map[*ssa.BasicBlock]*loopInfo{}, backEdges: map[edge]bool{},
 		edgeOut: map[edge]*edgeState{}, havocCallee: map[string]bool{}, usedAssumed: map[string]bool{}, usedCon: map[string]bool{},
-		declPos: map[token.Pos][]*ssa.Alloc{}, recSpecs: map[string]*recSpecInfo{}}
+		declPos: map[token.Pos][]*ssa.Alloc{}, recSpecs: map[string]*recSpecInfo{}, covered: map[string]bool{}, allocOrder: map[*ssa.Alloc]int{}}
 	return f
 }
 
@@ -34,6 +34,9 @@ func (f *FuncVC) generate() {
 			case *ssa.Defer, *ssa.Go, *ssa.Select, *ssa.Send:
 				f.unsup(fmt.Sprintf("function uses %T (D-CONC)", ins))
 				return
+			}
+			if a, ok := ins.(*ssa.Alloc); ok {
+				f.allocOrder[a] = len(f.allocOrder)
 			}
 			if a, ok := ins.(*ssa.Alloc); ok && a.Pos().IsValid() {
 				f.declPos[a.Pos()] = append(f.declPos[a.Pos()], a)
@@ -123,6 +126,14 @@ func (f *FuncVC) generate() {
 			continue
 		}
 		f.terminator(bst, b)
+	}
+	if f.con != nil {
+		for _, c := range f.con.Covers {
+			if !f.covered[c] {
+				// the statement was not even reached by the executor
+				f.obls = append(f.obls, &Obligation{Name: f.name() + "#reach:" + c, Kind: "reach", Func: f.name(), Prefix: len(f.sc.cmds), PC: "false", Goal: "false", Expect: "sat", fv: f})
+			}
+		}
 	}
 }
 
@@ -482,7 +493,7 @@ func (f *FuncVC) loopHead(st *State, li *loopInfo) {
 	}
 	// 2. havoc
 	hs := f.loopEffects(li)
-	for a := range st.cells {
+	for _, a := range f.sortedCells(st.cells) {
 		if hs.cells[a] {
 			st.cells[a] = f.freshTyped(st, a.Type().(*types.Pointer).Elem(), "lp."+a.Comment)
 		}
@@ -620,6 +631,9 @@ func (f *FuncVC) backEdge(es *edgeState, li *loopInfo) {
 			f.oblige(st, "inv.preserve", fmt.Sprintf("loop%d:%s", li.ordinal, cj.Label), cj.Term)
 		}
 	}
+	if li.con.NoTermination {
+		f.noTerm = append(f.noTerm, fmt.Sprintf("%s loop %d", f.name(), li.ordinal))
+	}
 	if li.autoRI != nil {
 		cur := st.cells[li.autoRI]
 		f.oblige(st, "inv.preserve", fmt.Sprintf("loop%d:<range index in bounds>", li.ordinal), and(cmp("<=", "(- 1)", cur.T), cmp("<=", arith("+", cur.T, "1"), "(imax "+li.autoDec+" 0)")))
@@ -639,7 +653,7 @@ func (f *FuncVC) backEdge(es *edgeState, li *loopInfo) {
 	} else if li.autoRI != nil {
 		cur := st.cells[li.autoRI]
 		f.oblige(st, "decreases", fmt.Sprintf("loop%d:<range index>", li.ordinal), and(cmp("<", arith("-", li.autoDec, cur.T), li.d0), cmp(">=", li.d0, "0")))
-	} else {
+	} else if !li.con.NoTermination {
 		f.oblige(st, "decreases", fmt.Sprintf("loop%d:<missing>", li.ordinal), "false")
 	}
 }
